@@ -112,7 +112,7 @@ Definition handle_event (mi : mirror) (e : event) : mirror * option rerr :=
 Definition mirror_init (md : mode) (s : obs) (max : N) : mirror :=
   {| m_hs := initial_set md s;
      m_complete := match md with Snapshot => true | Incremental => false end;
-     m_done := o_done s;
+     m_done := match md with Snapshot => o_done s | Incremental => false end;
      m_max := max |}.
 
 (** [loop { event = recv(); handle_event(event)?; if inner.done { break } }] *)
@@ -140,7 +140,8 @@ Definition replay (s : hset) (evs : list event) : hset := fold_left apply_event 
 Definition is_done_ev (e : event) : bool := match e with EDone => true | _ => false end.
 Definition is_complete_ev (e : event) : bool := match e with EInitialComplete => true | _ => false end.
 
-(** F11: incremental subscription of a non-empty set made after [done()] *)
+(** the former F11 class (repaired by commit 290b96a in /repo): incremental subscription of a
+    non-empty set made after [done()]; kept to state that it is now mirrored correctly *)
 Definition late_incremental (md : mode) (s : obs) : bool :=
   match md with
   | Incremental => o_done s && negb (match o_hs s with [] => true | _ => false end)
